@@ -310,7 +310,10 @@ def run_case(case, ctx):
     shuffled = {k: rngf.permutation(np.asarray(v)) for k, v in spc.items()}
     k0 = sorted(shuffled)[0]
     forms = [shuffled, {k0: shuffled[k0]}, {k0: np.r_[shuffled[k0], shuffled[k0][:1]]},
-             {k: (np.r_[v, shuffled[k0][:2]] if k != k0 else v) for k, v in shuffled.items()}]
+             {k: (np.r_[v, shuffled[k0][:2]] if k != k0 else v) for k, v in shuffled.items()},
+             # every group empty (the requested clusters have no spike): the union is empty, not an error
+             {k0: np.array([], dtype=np.int64), k0 + 1: np.array([], dtype=np.int64)}, {k0: np.array([])},
+             {k0: np.array([], dtype=np.int64), k0 + 1: shuffled[k0]}]
     for fm in forms:
         rr = call(pa._flatten_per_cluster, fm)
         exp = np.unique(np.concatenate([np.asarray(v) for v in fm.values()]))
@@ -330,6 +333,21 @@ def run_case(case, ctx):
         d = same(rr.value, exp, dtype=False)
         if d:
             ctx.violation('index_of_mismatch', case, d, feats)
+    # a lookup that is a permutation of 0..m-1 (every id once, no gap): positions, not values, are returned - also when
+    # the first and the last entry are in place
+    m_ = 4 + case['rot'] % 5
+    rngp = np.random.default_rng([case['rot'], 7])
+    mid = rngp.permutation(np.arange(1, m_ - 1))
+    for lk2 in (np.r_[0, mid, m_ - 1], np.r_[0, np.arange(1, m_ - 1)[::-1], m_ - 1], rngp.permutation(m_)):
+        arr_ = np.r_[(np.asarray(sc) % m_).astype(np.int64), -1]
+        rr = call(pa._index_of, arr_, lk2)
+        pos_ = {int(v): i for i, v in enumerate(lk2.tolist())}
+        pos_[-1] = -1
+        exp = np.array([pos_[int(v)] for v in arr_.tolist()])
+        if not rr.ok or same(rr.value, exp, dtype=False):
+            ctx.violation('index_of_mismatch' if rr.ok else 'raised', dict(case, lookup=lk2.tolist()), '_index_of with the dense lookup %r: %s' % (
+                lk2.tolist(), rr.exc if not rr.ok else same(rr.value, exp, dtype=False)), dict(feats, function='_index_of', dense_lookup=True), tb=rr.tb)
+            break
 
 
 def _model_case(case, ctx):
